@@ -1,4 +1,5 @@
 import CollectionsC.Proofs.ArrayStep
+import CollectionsC.Proofs.Growth
 /-! Counting re-allocations (C20): `Mem.nalloc` counts the successful allocator calls; `add` makes
 one exactly when it replaces the buffer.  With a growth function that at least doubles, `n` appends
 cause at most `log2 (size) + 1` re-allocations. -/
@@ -127,5 +128,71 @@ theorem addAll_realloc_log (a : Arr) (xs : List Nat) (m : Mem) (hinv : a.Inv) (h
       omega
     have := (Nat.le_log2 hne).2 hpow
     omega
+
+/-- with a growth function that at least doubles, the requested capacity is the float product -/
+theorem newCapacity_of_doubling (a : Arr) (hc : 1 ≤ a.capacity) (hd : ∀ c, 2 * c ≤ a.grow c) :
+    a.newCapacity = a.grow a.capacity := by
+  unfold newCapacity
+  have := hd a.capacity
+  simp only
+  split
+  · omega
+  · rfl
+
+theorem free_sched' (m : Mem) : m.free.sched = m.sched := by unfold Mem.free; split <;> rfl
+
+/-- **the concrete append process is the abstract capacity process of `Proofs/Growth.lean`**:
+under an allocator that never refuses and a doubling growth function that stays below the byte-size
+limit, `n` appends leave exactly the size, capacity and number of buffer allocations of
+`CC.Growth.appends` -/
+theorem addAll_eq_appends : ∀ (xs : List Nat) (a : Arr) (m : Mem), a.Inv → 0 < m.live → m.sched = [] →
+    (∀ c, 2 * c ≤ a.grow c) → (∀ c, a.grow c ≤ Gen.CC_MAX_ELEMENTS / 8) →
+    (a.addAll xs m).1.size = (Growth.appends a.grow a.size a.capacity xs.length).size ∧
+    (a.addAll xs m).1.capacity = (Growth.appends a.grow a.size a.capacity xs.length).cap ∧
+    (a.addAll xs m).2.nalloc = m.nalloc + (Growth.appends a.grow a.size a.capacity xs.length).reallocs := by
+  intro xs
+  induction xs with
+  | nil => intro a m _ _ _ _ _; simp [addAll, Growth.appends]
+  | cons x xs ih =>
+    intro a m hinv hlive hs hd hb
+    obtain ⟨h1, h2, h3, h4⟩ := hinv
+    simp only [addAll, List.length_cons]
+    unfold Growth.appends
+    by_cases hroom : a.size < a.capacity
+    · simp only [hroom, if_true]
+      have hl : a.size < a.buf.length := by omega
+      rw [add_room a x m hroom, store_eq a x m hl]
+      have := ih { a with buf := a.buf.put a.size x, size := a.size + 1 } m
+        ⟨by simp only; omega, by simp only [Buf.length_put]; omega, h3, h4⟩ hlive hs hd hb
+      exact this
+    · simp only [hroom, if_false]
+      have hnl : ¬ a.AtLimit := by
+        intro hl
+        rcases hl with hl | hl
+        · have := max8_lt; omega
+        · rw [newCapacity_of_doubling a h3 hd] at hl
+          have := hb a.capacity; omega
+      have hal := (Mem.alloc_nil m hs)
+      have hnc := newCapacity_of_doubling a h3 hd
+      have hgt := hd a.capacity
+      rw [add_full a x m (by omega), expandCapacity_success a m hnl hal.1]
+      simp only [bne_self_eq_false, Bool.false_eq_true, if_false]
+      rw [store_eq _ x _ (by simp; omega)]
+      have hc : (decide (a.size ≤ a.buf.length) && decide (a.size ≤ a.newCapacity)) = true := by simp; omega
+      simp only [hc, Mem.check_true]
+      have hlive' : 0 < m.alloc.2.free.live := by
+        have e := Mem.alloc_fst_true m hal.1
+        have f := free_live m.alloc.2 (by omega)
+        omega
+      have hs' : m.alloc.2.free.sched = [] := by rw [free_sched']; exact hal.2
+      have := ih { a with buf := ((Buf.mk a.newCapacity : Buf Nat).memcpy 0 a.buf 0 a.size).put a.size x,
+                          capacity := a.newCapacity, size := a.size + 1 } m.alloc.2.free
+        ⟨by simp only; omega, by simp, by simp only; omega, by simp only; rw [hnc]; exact hb _⟩ hlive' hs' hd hb
+      simp only at this
+      rw [hnc] at this ⊢
+      obtain ⟨t1, t2, t3⟩ := this
+      refine ⟨t1, t2, ?_⟩
+      rw [t3, free_nalloc, (alloc_nalloc m).1 hal.1]
+      omega
 
 end CC.Arr
